@@ -480,9 +480,11 @@ def synthetic_event_files(chk, g, d, drv, jobs, n_files):
                     mc_energy=g.uniform(1., 12., n))
         el = evfile.make_event_list(times, ra0=ra0, dec0=dec0, **cols)
         deadtime = float(g.choice([0., 0.00108]))
-        evfile.write_event_list(el, path, gtis, start, stop, nsrc=3, ra0=ra0, dec0=dec0, du_id=du, deadtime=deadtime, irfname=irf)
+        tz = [None, 'JST-9', None, 'EST5EDT'][k % 4]
+        with (local_timezone(tz) if tz else contextlib.nullcontext()):
+            evfile.write_event_list(el, path, gtis, start, stop, nsrc=3, ra0=ra0, dec0=dec0, du_id=du, deadtime=deadtime, irfname=irf)
         meta = dict(start_met=start, duration=duration, du_id=du, irfname=irf, gtis=gtis, ra=ra0, dec=dec0, objname='synthetic')
-        desc = dict(op='event-file', events=n, start_met=start, duration=duration, gtis=len(gtis), du=du, irfname=irf, deadtime=deadtime)
+        desc = dict(op='event-file', events=n, start_met=start, duration=duration, gtis=len(gtis), du=du, irfname=irf, deadtime=deadtime, local_time_zone=tz or 'as the machine')
         chk.case(desc, nontrivial=n > 1 and len(gtis) >= 1)
         check_event_file(chk, path, el, meta, drv, jobs, dict(oracle='event-file', index=k))
         if n > 100:
@@ -621,10 +623,47 @@ def binned_products(chk, g, d, files):
             dif = files_diff(p1, p2)
             if dif:
                 chk.fail('impl', '%s product read with %s and written again differs from the original: %s' % (alg, cls.__name__, dif), rep)
+            # a product modified in memory (an element-wise update of one of its arrays) and written: the file holds what the object holds
+            try:
+                obj = cls(p1)
+                names = [h.name for h in obj.hdu_list[1:] if getattr(h, 'data', None) is not None and not isinstance(h, fits.BinTableHDU)]
+                if names:
+                    nm = names[0]
+                    arr = getattr(obj, nm)
+                    arr[...] = arr * 2. + 1.                      # in place, through the attribute the class exposes
+                    p4 = p1.replace('.fits', '_mod.fits')
+                    obj.write(p4, overwrite=True)
+                    back = cls(p4)
+                    chk.case(dict(op='binned-modify-write', alg=alg, extension=nm), nontrivial=True)
+                    if not same_array(numpy.array(getattr(back, nm)), numpy.array(arr)):
+                        chk.fail('impl', '%s product: the %s array updated in place through %s.%s is not what write() saves (in memory max %s, on disk max %s)' % (
+                            alg, nm, cls.__name__, nm, float(numpy.nanmax(arr)), float(numpy.nanmax(getattr(back, nm)))), dict(rep, step='modify-write', extension=nm))
+            except BaseException as e:
+                chk.fail('impl', '%s product: modifying an image array in place and writing fails: %s: %s' % (alg, type(e).__name__, str(e)[:100]), dict(rep, step='modify-write'))
             dif = files_diff(p2, p3)
             if dif:
                 chk.fail('impl', '%s product: the second read/write cycle changes the file again: %s' % (alg, dif), rep)
     chk.extra['binned_algorithms'] = dict(ran=sorted(set(ran)), not_runnable_on_a_bare_event_list=failed)
+
+
+import contextlib
+
+
+@contextlib.contextmanager
+def local_timezone(tz):
+    """run a block with the process in another local time zone (DATE-OBS / DATE-END are UTC whatever the zone of the machine)"""
+    import time
+    old = os.environ.get('TZ')
+    os.environ['TZ'] = tz
+    time.tzset()
+    try:
+        yield
+    finally:
+        if old is None:
+            os.environ.pop('TZ', None)
+        else:
+            os.environ['TZ'] = old
+        time.tzset()
 
 
 # ------------------------------------------------------------------------------------------------ dates
@@ -647,9 +686,14 @@ def date_cases(chk, g, drv, jobs, n):
         frac = int(g.integers(0, 64))
         t = sec + frac / 64.
         us = sec * 10 ** 6 + frac * 15625
-        s = met_to_string(t)
-        chk.case(dict(op='date', met=t), nontrivial=frac != 0)
-        rep = dict(oracle='date', met=t)
+        tz = [None, None, 'JST-9', 'EST5EDT', 'Europe/Rome'][k % 5]
+        if tz is None:
+            s = met_to_string(t)
+        else:
+            with local_timezone(tz):
+                s = met_to_string(t)
+        chk.case(dict(op='date', met=t, local_time_zone=tz or 'as the machine'), nontrivial=frac != 0)
+        rep = dict(oracle='date', met=t, tz=tz)
         back = parse_date(s)
         if abs(back - t) > 1e-6:
             chk.fail('impl', 'met_to_string(%r) = %s, which is %.6f s after the mission start' % (t, s, back), rep)
